@@ -1966,6 +1966,14 @@ class QuicConnection:
                 )
             )
             self._peer_cid_sequence_numbers.add(sequence_number)
+        elif (
+            sequence_number < self._peer_retire_prior_to
+            and sequence_number not in self._peer_cid_sequence_numbers
+        ):
+            # a late frame for an ID which is already covered by Retire Prior To
+            # must be answered with a RETIRE_CONNECTION_ID, see RFC 9000 5.1.2
+            self._peer_cid_sequence_numbers.add(sequence_number)
+            self._retire_connection_ids.append(sequence_number)
 
         # the active CID can only be retired if there is another one to switch to
         if (
